@@ -17,11 +17,18 @@ extension of p (user dict over default leaf: the default leaf is superseded by t
 "contains no other keys": the result has no leaf beyond these.
 
 Empty dictionaries.  A `{}` value carries no leaf.  Choice made here: a user `{}` (or any user
-sub-dictionary without a single leaf in it) specifies nothing, so the default leaves at, above and below
-that path are taken.  Whether a `{}` that occurs in one of the inputs survives as a key holding `{}` in
-the result is *not* decided by the statement ("keeps every leaf" says nothing about leafless keys, "no
-other keys" could be read either way), so it is NOT asserted: the oracle compares leaf sets exactly and
-only requires that every leafless key of the result also is a leafless key of one of the inputs.
+sub-dictionary without a single leaf in it) specifies nothing, so the default leaves *below* that path
+(default is a dictionary there) are taken: asserted.
+
+NOT asserted, because the statement does not decide it:
+  * whether a `{}` that occurs in one of the inputs survives as a key holding `{}` in the result
+    ("keeps every leaf" says nothing about leafless keys, "no other keys" could be read either way): the
+    oracle compares leaf sets exactly and only requires that every leafless key of the result lies on the
+    path of a leafless key of one of the inputs;
+  * a leafless user dictionary sitting exactly on a default *leaf* (user `{a: {}}`, default `{a: 1}`):
+    "nothing specified, so a = 1" and "the user's (empty) mapping replaces the leaf, so a = {}" are both
+    defensible.  Either result is accepted at that path; any other value, any leaf below it, or an
+    exception is a violation.  `ref_merge` itself returns the first reading.
 """
 from __future__ import annotations
 
@@ -158,8 +165,18 @@ def compare(result, user, default):
                 out.append(("default-overrides-user", p, f"user {v!r}, default {dl[p]!r}, result {got!r}"))
             else:
                 out.append(("user-leaf-lost", p, f"user {v!r}, result {'<absent>' if got is ABSENT else repr(got)}"))
+    # default leaves on which the user put a leafless dictionary: outcome not asserted (see docstring)
+    open_paths = set()
+    for q in ue:
+        for i in range(1, len(q) + 1):
+            if q[:i] in dl:
+                open_paths.add(q[:i])
+    n_open = 0
     for p, v in exp.items():
         if p in ul:
+            continue
+        if p in open_paths and p not in rl:
+            n_open += 1
             continue
         if p not in rl or not same(rl[p], v):
             got = rl.get(p, ABSENT)
@@ -169,10 +186,14 @@ def compare(result, user, default):
         if p not in exp:
             kind = "superseded-default-kept" if p in dl and same(dl[p], v) else "extra-key"
             out.append((kind, p, f"result has {v!r}; neither a user leaf nor an unspecified default leaf"))
+    allowed = set()
+    for q in ue | de:
+        for i in range(1, len(q) + 1):
+            allowed.add(q[:i])
     for p in re_:
-        if p not in ue and p not in de:
-            out.append(("extra-empty-dict", p, "result has a leafless key that no input has"))
-    info = {"leafless_kept": len(re_), "leafless_in": len(ue | de)}
+        if p not in allowed:
+            out.append(("extra-empty-dict", p, "result has a leafless key that lies on no leafless key of an input"))
+    info = {"leafless_kept": len(re_), "leafless_in": len(ue | de), "open_leafless_over_leaf": n_open}
     return out, info
 
 
